@@ -996,7 +996,7 @@ package desync
 //@       as($arg0, FormatIndex).ChunkSizeAvg == i.Index.ChunkSizeAvg && as($arg0, FormatIndex).ChunkSizeMax == i.Index.ChunkSizeMax
 //@   oncall Encode: requires is($arg0, FormatTable) ==> as($arg0, FormatTable).Size == 18446744073709551615 && as($arg0, FormatTable).Type == CaFormatTable && \
 //@       tableMatches(i.Chunks, as($arg0, FormatTable).Items)
-//@   loop 1: invariant len(fChunks) == len(i.Chunks) && offset == ite($i == 0, 0, i.Chunks[$i-1].Start + i.Chunks[$i-1].Size) && tableMatches(i.Chunks[:$i], fChunks[:$i])
+//@   loop 1: invariant (len(fChunks) == len(i.Chunks) || len(fChunks) == $i) && offset == ite($i == 0, 0, i.Chunks[$i-1].Start + i.Chunks[$i-1].Size) && tableMatches(i.Chunks[:$i], fChunks[:$i])
 
 //# round trip at the level of the tables: reading back what WriteTo hands to the encoder yields the same chunks
 //@ lemma @C04 indexRoundTrip: forall a []IndexChunk, b []IndexChunk, t []FormatTableItem :: tableMatches(a, t) && tableMatches(b, t) ==> \
